@@ -77,6 +77,11 @@ void vp_set_thread(int tid) {
   vp_spurious_left = VP_SPURIOUS;
 }
 
+/* saved bump pointers of the two logical threads of a sequentialised schedule */
+static uint64_t vp_ctx_hp[2], vp_ctx_sp[2];
+static uint64_t vp_ctx_exc[2];
+static void vp_switch_ctx(int tid);
+
 void vp_init(void) {
   VP_ASSERT(vp_globals_end <= VP_ARENA_BASE, "VP-BOUND: globals do not fit below VP_ARENA_BASE");
   VP_ASSERT(VP_ARENA_BASE + VP_NTHREADS * (VP_HEAP_BYTES + VP_STACK_BYTES) <= VP_BYTES, "VP-BOUND: VP_WORDS too small");
@@ -223,10 +228,30 @@ void vp_free(uint64_t a) {
 
 /* ------------------------------------------------------------------------------------------------ atomics */
 /* Tier-A preemption point (DESIGN 2b): the generated harness main may define VP_PREEMPT_HOOK. */
+/* Sequentialised two-unit schedules: unit B runs to completion nested inside unit A at A's vp_pre_k-th atomic
+ * operation (k is a constant per query = one cube of the schedule; everything else stays symbolic).  While B runs it
+ * uses thread context 1 (own arenas, own exception state is not needed: B never runs while A is unwinding). */
 #ifdef VP_PREEMPT
-void vp_preempt_point(void);
+int vp_pre_enabled, vp_pre_k, vp_pre_count, vp_pre_ran, vp_pre_inside;
+void vp_unit_b(void); /* provided by the generated entry file */
+static void vp_switch_ctx(int tid);
+void vp_run_pending_unit(void) {
+  if (!vp_pre_enabled || vp_pre_ran || vp_pre_inside) return;
+  vp_pre_ran = 1;
+  vp_pre_inside = 1;
+  vp_switch_ctx(1);
+  vp_unit_b();
+  vp_switch_ctx(0);
+  vp_pre_inside = 0;
+}
+static inline void vp_preempt_point(void) {
+  if (!vp_pre_enabled || vp_pre_inside) return;
+  if (vp_pre_count == vp_pre_k) vp_run_pending_unit();
+  vp_pre_count++;
+}
 #else
-#define vp_preempt_point() ((void)0)
+#define vp_preempt_point() ((void)0) /* threaded (Tier K) and plain sequential modules: no hook at all */
+void vp_run_pending_unit(void) {}
 #endif
 
 uint64_t vp_atomic_load(uint64_t a, int sz, int order) {
@@ -314,7 +339,7 @@ static void vp_exc_release(uint64_t obj) {
   VP_ASSERT(old != 0, "exception object refcount underflow");
   if (old == 1) {
     uint64_t dtor = vp_ld(obj - VP_EXC_HDR + 16, 8);
-    if (dtor) vp_call_void_ptr(dtor, obj);
+    if (dtor) vp_call_exc_dtor(dtor, obj);
     vp_free(obj - VP_EXC_HDR);
   }
 }
@@ -385,6 +410,20 @@ void __cxa_pure_virtual(void) { VP_FAIL("pure virtual call"); }
 void _ZNSt9exceptionD2Ev(uint64_t self) {}
 void _ZNSt9exceptionD1Ev(uint64_t self) {}
 void abort(void) { VP_FAIL("abort called"); }
+
+static void vp_switch_ctx(int tid) {
+  int cur = vp_tid;
+  vp_ctx_hp[cur] = vp_hp; vp_ctx_sp[cur] = vp_sp; vp_ctx_exc[cur] = vp_exc;
+  if (vp_ctx_hp[tid] == 0) {
+    vp_set_thread(tid);
+    vp_exc = 0;
+  } else {
+    vp_tid = tid;
+    vp_hp = vp_ctx_hp[tid]; vp_sp = vp_ctx_sp[tid]; vp_exc = vp_ctx_exc[tid];
+    vp_hp_end = VP_ARENA_BASE + (uint64_t)tid * (VP_HEAP_BYTES + VP_STACK_BYTES) + VP_HEAP_BYTES;
+    vp_sp_end = vp_hp_end + VP_STACK_BYTES;
+  }
+}
 
 /* ------------------------------------------------------------------------------------------------ operator new/delete */
 uint64_t _Znwm(uint64_t n) { return vp_malloc(n); }
